@@ -3,8 +3,15 @@
 //   * each zone's local route answers (model's input)   L <zone> <a> <b>    => <gwsrc|-> <gwdst|-> <lat %a> <links...> | exc
 //   * the global route of host pairs                    R <src> <dst>       => <lat %a> <links...> | exc
 //   * link latencies (after `new`)                      K <link>            => <lat %a>
+//   * the Vivaldi coordinates the library stores         C <np>              => <x %a> <y %a> <h %a>   (after the K lines)
 // stdin: cases; a case starts with `new <id>`, followed by description lines (echoed unchanged) and query lines.
-//   zone <id> <parent> <kind> ; np <id> <zone> h|r [x y z] ; link <id> <latency %a> ; gwset <zone> <np> ;
+//   zone <id> <parent> <kind> [x y h] ; np <id> <zone> h|r [x y h] ; link <id> <latency %a> <zone> ; gwset <zone> <np> ;
+//   zone <id> <parent> torus <d1,d2,..> <latency %a> [x y h] : a TorusZone whose leaves are its child zones (zone lines with this
+//     parent, in position order), created by the netzone callback when the torus is sealed; the leaf's default gateway
+//     becomes the entry of ClusterBase's gateway table.  An `np <id> <torus> r` line adds a router to the torus after the
+//     last leaf (so that netpoint ids stay equal to leaf positions).  The links the torus creates get ids from 100000
+//     (sorted by name).
+//   zone <id> <parent> fattree <down,..;up,..;count,..> <latency %a> [x y h] : a FatTreeZone, same conventions.
 //   route <zone> <src|-> <dst|-> <gwsrc|-> <gwdst|-> <sym> <links..> ; bypass <zone> <src> <dst> <gwsrc|-> <gwdst|-> <links..>
 // Names: zone "z<id>" (its netpoint has the same name), host/router "n<id>", link "l<id>"; the loopback link is link 0.
 // A case runs in a forked child (one Engine per process); when the library aborts on a query the parent prints
@@ -13,9 +20,11 @@
 #include <simgrid/kernel/routing/NetZoneImpl.hpp>
 #include <simgrid/s4u.hpp>
 #include "src/kernel/resource/StandardLinkImpl.hpp"
+#include <simgrid/kernel/routing/VivaldiZone.hpp>
 
 #include <cstdio>
 #include <cstring>
+#include <algorithm>
 #include <fcntl.h>
 #include <iostream>
 #include <map>
@@ -53,6 +62,7 @@ struct World {
   std::map<int, NetPoint*> nps;
   std::map<int, sg4::Link*> links;
   std::map<std::string, int> link_ids; // every link of the platform -> id
+  size_t coords_rank = 0;              // rank of the vivaldi::Coords extension of NetPoint
 };
 
 static NetPoint* np_of(World& w, const std::string& tok)
@@ -70,83 +80,188 @@ static std::string link_tok(World& w, const simgrid::kernel::resource::StandardL
   return std::to_string(it->second);
 }
 
+using Toks = std::vector<std::vector<std::string>>;
+
+static sg4::NetZone* make_zone(sg4::NetZone* parent, const std::vector<std::string>& t)
+{
+  std::string name = "z" + t[1];
+  sg4::NetZone* z  = nullptr;
+  if (t[3] == "full")
+    z = parent->add_netzone_full(name);
+  else if (t[3] == "floyd")
+    z = parent->add_netzone_floyd(name);
+  else if (t[3] == "dijkstra")
+    z = parent->add_netzone_dijkstra(name, false);
+  else if (t[3] == "dijkstracache")
+    z = parent->add_netzone_dijkstra(name, true);
+  else if (t[3] == "star")
+    z = parent->add_netzone_star(name);
+  else if (t[3] == "empty")
+    z = parent->add_netzone_empty(name);
+  else if (t[3] == "vivaldi")
+    z = parent->add_netzone_vivaldi(name);
+  else if (t[3] == "torus") {
+    std::vector<unsigned long> dims;
+    std::istringstream in(t.at(4));
+    std::string d;
+    while (std::getline(in, d, ','))
+      dims.push_back(std::stoul(d));
+    z = parent->add_netzone_torus(name, dims, 1e9, std::strtod(t.at(5).c_str(), nullptr), sg4::Link::SharingPolicy::SHARED);
+  } else if (t[3] == "fattree") {
+    // <down_1,..,down_n;up_1,..,up_n;count_1,..,count_n>
+    std::vector<std::vector<unsigned int>> p;
+    std::istringstream in(t.at(4));
+    std::string part;
+    while (std::getline(in, part, ';')) {
+      std::vector<unsigned int> v;
+      std::istringstream pin(part);
+      std::string d;
+      while (std::getline(pin, d, ','))
+        v.push_back(static_cast<unsigned int>(std::stoul(d)));
+      p.push_back(v);
+    }
+    z = parent->add_netzone_fatTree(name, static_cast<unsigned int>(p.at(0).size()), p.at(0), p.at(1), p.at(2), 1e9,
+                                    std::strtod(t.at(5).c_str(), nullptr), sg4::Link::SharingPolicy::SHARED);
+  } else
+    throw std::invalid_argument("zone kind " + t[3]);
+  size_t c0 = (t[3] == "torus" || t[3] == "fattree") ? 6 : 4; // Vivaldi coordinates of the zone's netpoint
+  if (t.size() >= c0 + 3)
+    z->get_netpoint()->set_coordinates(t[c0] + " " + t[c0 + 1] + " " + t[c0 + 2]);
+  return z;
+}
+
+static void make_np(World& w, const std::vector<std::string>& t)
+{
+  int id         = std::stoi(t[1]);
+  auto* z        = w.zones.at(std::stoi(t[2]));
+  NetPoint* np   = nullptr;
+  std::string nm = "n" + t[1];
+  if (t[3] == "h")
+    np = z->add_host(nm, 1e9)->get_netpoint();
+  else
+    np = z->add_router(nm);
+  if (t.size() >= 7) // Vivaldi coordinates; the peer links are declared as ordinary star routes (set_peer_link does the same)
+    np->set_coordinates(t[4] + " " + t[5] + " " + t[6]);
+  w.nps[id] = np;
+}
+
+static void make_route(World& w, const std::vector<std::string>& t)
+{
+  if (t[0] == "route") {
+    auto* z = w.zones.at(std::stoi(t[1]))->get_impl();
+    std::vector<sg4::LinkInRoute> ll;
+    for (size_t i = 7; i < t.size(); i++)
+      ll.emplace_back(w.links.at(std::stoi(t[i])));
+    z->add_route(np_of(w, t[2]), np_of(w, t[3]), np_of(w, t[4]), np_of(w, t[5]), ll, t[6] == "1");
+  } else if (t[0] == "bypass") {
+    auto* z = w.zones.at(std::stoi(t[1]))->get_impl();
+    std::vector<sg4::LinkInRoute> ll;
+    for (size_t i = 6; i < t.size(); i++)
+      ll.emplace_back(w.links.at(std::stoi(t[i])));
+    z->add_bypass_route(np_of(w, t[2]), np_of(w, t[3]), np_of(w, t[4]), np_of(w, t[5]), ll);
+  }
+}
+
 static void build(World& w, const std::vector<std::string>& lines)
 {
   auto* e    = sg4::Engine::get_instance();
   auto* root = e->get_netzone_root();
   w.zones[0] = root;
   w.nps[0]   = root->get_netpoint();
-  std::vector<std::vector<std::string>> toks;
+  Toks toks;
   for (auto const& l : lines)
     toks.push_back(split(l));
+  // vivaldi::Coords registers its NetPoint extension when the first coordinates are set: it gets the rank after this probe
+  w.coords_rank = NetPoint::extension_create(std::function<void(void*)>()) + 1;
+  // cluster-like zones (torus): their leaves are created by the netzone callback while the zone is sealed
+  std::map<int, std::string> kind;              // zone -> kind
+  std::map<int, int> parent_of;                 // zone -> parent
+  std::map<int, std::vector<int>> leaves;       // torus -> leaf zones in position order
+  for (auto const& t : toks)
+    if (t[0] == "zone" && t[1] != "0") {
+      int id        = std::stoi(t[1]);
+      kind[id]      = t[3];
+      parent_of[id] = std::stoi(t[2]);
+    }
+  auto is_torus    = [&](int z) { return kind.count(z) && (kind[z] == "torus" || kind[z] == "fattree"); };
+  auto is_leaf     = [&](int z) { return parent_of.count(z) && is_torus(parent_of[z]); };
+  auto is_deferred = [&](int z) { return is_torus(z) || is_leaf(z); };
   for (auto const& t : toks) {
     if (t[0] == "zone") {
       int id = std::stoi(t[1]);
       if (id == 0)
         continue;
-      auto* parent     = w.zones.at(std::stoi(t[2]));
-      std::string name = "z" + t[1];
-      sg4::NetZone* z  = nullptr;
-      if (t[3] == "full")
-        z = parent->add_netzone_full(name);
-      else if (t[3] == "floyd")
-        z = parent->add_netzone_floyd(name);
-      else if (t[3] == "dijkstra")
-        z = parent->add_netzone_dijkstra(name, false);
-      else if (t[3] == "dijkstracache")
-        z = parent->add_netzone_dijkstra(name, true);
-      else if (t[3] == "star")
-        z = parent->add_netzone_star(name);
-      else if (t[3] == "empty")
-        z = parent->add_netzone_empty(name);
-      else if (t[3] == "vivaldi")
-        z = parent->add_netzone_vivaldi(name);
-      else
-        throw std::invalid_argument("zone kind " + t[3]);
-      w.zones[id] = z;
-      w.nps[id]   = z->get_netpoint();
+      if (is_leaf(id)) {
+        leaves[parent_of[id]].push_back(id);
+        continue;
+      }
+      w.zones[id] = make_zone(w.zones.at(std::stoi(t[2])), t);
+      w.nps[id]   = w.zones[id]->get_netpoint();
     } else if (t[0] == "np") {
-      int id          = std::stoi(t[1]);
-      auto* z         = w.zones.at(std::stoi(t[2]));
-      NetPoint* np    = nullptr;
-      std::string nm  = "n" + t[1];
-      if (t[3] == "h")
-        np = z->add_host(nm, 1e9)->get_netpoint();
-      else
-        np = z->add_router(nm);
-      if (t.size() >= 7) // Vivaldi coordinates; the peer links are declared as ordinary star routes (set_peer_link does the same)
-        np->set_coordinates(t[4] + " " + t[5] + " " + t[6]);
-      w.nps[id] = np;
+      if (not is_deferred(std::stoi(t[2])))
+        make_np(w, t);
     } else if (t[0] == "link") {
       int id = std::stoi(t[1]);
       // links are created in the zone given as 4th token (any zone will do for routing purposes)
-      auto* z     = w.zones.at(std::stoi(t[3]));
+      int zid     = std::stoi(t[3]);
+      auto* z     = is_deferred(zid) ? root : w.zones.at(zid);
       w.links[id] = z->add_link("l" + t[1], 1e9)->set_latency(std::strtod(t[2].c_str(), nullptr));
     } else if (t[0] == "gwset") {
-      w.zones.at(std::stoi(t[1]))->set_gateway(w.nps.at(std::stoi(t[2])));
+      if (not is_deferred(std::stoi(t[1])))
+        w.zones.at(std::stoi(t[1]))->set_gateway(w.nps.at(std::stoi(t[2])));
     }
   }
-  for (auto const& t : toks) {
-    if (t[0] == "route") {
-      auto* z = w.zones.at(std::stoi(t[1]))->get_impl();
-      std::vector<sg4::LinkInRoute> ll;
-      for (size_t i = 7; i < t.size(); i++)
-        ll.emplace_back(w.links.at(std::stoi(t[i])));
-      z->add_route(np_of(w, t[2]), np_of(w, t[3]), np_of(w, t[4]), np_of(w, t[5]), ll, t[6] == "1");
-    } else if (t[0] == "bypass") {
-      auto* z = w.zones.at(std::stoi(t[1]))->get_impl();
-      std::vector<sg4::LinkInRoute> ll;
-      for (size_t i = 6; i < t.size(); i++)
-        ll.emplace_back(w.links.at(std::stoi(t[i])));
-      z->add_bypass_route(np_of(w, t[2]), np_of(w, t[3]), np_of(w, t[4]), np_of(w, t[5]), ll);
-    }
+  // seal each torus now: the callback builds leaf number `position` completely (netpoints, default gateway, routes),
+  // seals it and returns it; after the last leaf, the routers of the torus itself and its default gateway
+  for (auto const& [tz, lv] : leaves) {
+    sg4::NetZone* torus = w.zones.at(tz);
+    const int torus_id  = tz;
+    const auto& lvs     = lv;
+    torus->set_netzone_cb([&w, &toks, torus_id, &lvs](sg4::NetZone* zone, const std::vector<unsigned long>&, unsigned long position) {
+      int id = lvs.at(position);
+      sg4::NetZone* leaf = nullptr;
+      for (auto const& t : toks)
+        if (t[0] == "zone" && std::stoi(t[1]) == id)
+          leaf = make_zone(zone, t);
+      w.zones[id] = leaf;
+      w.nps[id]   = leaf->get_netpoint();
+      for (auto const& t : toks)
+        if (t[0] == "np" && std::stoi(t[2]) == id)
+          make_np(w, t);
+      for (auto const& t : toks)
+        if (t[0] == "gwset" && std::stoi(t[1]) == id)
+          leaf->set_gateway(w.nps.at(std::stoi(t[2])));
+      for (auto const& t : toks)
+        if ((t[0] == "route" || t[0] == "bypass") && std::stoi(t[1]) == id)
+          make_route(w, t);
+      leaf->seal();
+      if (position + 1 == lvs.size()) {
+        for (auto const& t : toks)
+          if (t[0] == "np" && std::stoi(t[2]) == torus_id)
+            make_np(w, t);
+        for (auto const& t : toks)
+          if (t[0] == "gwset" && std::stoi(t[1]) == torus_id)
+            zone->set_gateway(w.nps.at(std::stoi(t[2])));
+      }
+      return leaf;
+    });
+    torus->seal();
   }
+  for (auto const& t : toks)
+    if ((t[0] == "route" || t[0] == "bypass") && not is_leaf(std::stoi(t[1])))
+      make_route(w, t);
   root->seal();
+  std::vector<std::string> others;
   for (auto* l : e->get_all_links()) {
     const std::string& n = l->get_name();
     if (n.size() > 1 && n[0] == 'l' && n.find_first_not_of("0123456789", 1) == std::string::npos)
       w.link_ids[n] = std::stoi(n.substr(1));
+    else if (n != "__loopback__")
+      others.push_back(n);
   }
+  std::sort(others.begin(), others.end());
+  for (size_t i = 0; i < others.size(); i++)
+    w.link_ids[others[i]] = 100000 + static_cast<int>(i);
   w.link_ids["__loopback__"] = 0;
 }
 
@@ -233,6 +348,13 @@ static void run_case(const std::vector<std::string>& lines, char* argv0)
     for (auto const& [name, id] : w.link_ids) {
       double lat = name == "__loopback__" ? 0.0009765625 : sg4::Link::by_name(name)->get_latency();
       printf("K %d => %a\n", id, lat);
+    }
+    // the Vivaldi coordinates as the library stores them
+    // (Coords::EXTENSION_ID is a hidden symbol: the extension is read by rank, see build())
+    for (auto const& [id, np] : w.nps) {
+      const auto* c = static_cast<const simgrid::kernel::routing::vivaldi::Coords*>(np->extension(w.coords_rank));
+      if (c && c->coords.size() == 3)
+        printf("C %d => %a %a %a\n", id, c->coords[0], c->coords[1], c->coords[2]);
     }
     fflush(stdout);
     *progress    = 1;
